@@ -98,6 +98,16 @@ class FixedList(Spec):
         return tuple(vals) if self.as_tuple else vals
 
 
+class DictOf(Spec):
+    """dict with concrete keys and specified values."""
+
+    def __init__(self, items):
+        self.items = items
+
+    def make(self, I, name):
+        return {k: (v.make(I, f'{name}[{k!r}]') if isinstance(v, Spec) else copy.deepcopy(v)) for k, v in self.items.items()}
+
+
 class Map(Spec):
     def __init__(self, kkind='U', vkind='U'):
         self.kkind, self.vkind = kkind, vkind
@@ -144,7 +154,7 @@ class Contract:
     def __init__(self, target, props, params, requires=(), ensures=(), raises=None, loops=None, hooks=None,
                  name=None, ghost=None, lemma_uses=None, replay=None, note='', order=None, static=False,
                  ensures_raise=None, known=None, setup=None, result_name='result', finite_scope=None,
-                 call=None, expect_unsupported=False, hunt=None):
+                 call=None, expect_unsupported=False, hunt=None, lemmas=None, static_checks=None):
         self.target = target
         self.props = props
         self.params = params
@@ -158,6 +168,8 @@ class Contract:
             d['inv'] = [_parse(c) for c in spec.get('inv', [])]
             if spec.get('decreases'):
                 d['decreases'] = _parse(spec['decreases'])
+            if spec.get('lemmas'):
+                d['lemmas'] = [_parse(c) for c in spec['lemmas']]
             self.loops[k] = d
         self.hooks = hooks or {}
         self.name = name or target.split('::')[1]
@@ -169,6 +181,8 @@ class Contract:
         self.static = static
         self.finite_scope = finite_scope
         self.hunt = hunt
+        self.lemmas = [_parse(c) for c in (lemmas or [])]
+        self.static_checks = static_checks or []
         REGISTRY.append(self)
 
     def __repr__(self):
@@ -339,6 +353,10 @@ def run_path(contract, decisions, mod, cls, fn):
             outcome = ('raise', ex.cls)
         I.ghost['outcome'] = outcome
         # 3. postconditions
+        if contract.lemmas:
+            from .loops import assume_lemmas
+            fr.locals['result'] = outcome[1] if outcome[0] == 'return' else None
+            assume_lemmas(I, contract.lemmas)
         if outcome[0] == 'return':
             fr.locals['result'] = outcome[1]
             for cname, cond in contract.raises.items():
@@ -405,6 +423,16 @@ def generate(contract):
     work = [[]]
     obs = []
     seen_ob = 0
+    # static (syntactic) obligations over the current source, e.g. frame checks by AST scan
+    from .interp import Obligation
+    for sc in contract.static_checks:
+        try:
+            for nm, ok, detail in sc():
+                obs.append((None, Obligation(f'{contract.name}#static-{nm}', [], z3.BoolVal(bool(ok)), 'static',
+                                             {'clause': detail}), []))
+        except Exception as e:
+            rep.error = f'static check failed to run: {e!r}'
+            return rep, []
     try:
         while work:
             decisions = work.pop()
